@@ -27,7 +27,7 @@ PROFILES = {
     "measure": {"measure": 8, "apply1": 3, "applyc": 2, "povm": 0.3, "kraus": 1},
     "kraus": {"kraus": 9, "apply1": 2.5, "applyc": 2, "measure": 0.6, "povm": 0.3},
     "povm": {"povm": 8, "apply1": 3, "applyc": 2, "measure": 0.5, "kraus": 1},
-    "invariants": {},
+    "invariants": {"resize": 1.6, "reorder": 1.5, "expand": 1.2, "contract": 1.0, "trace_out": 1.0, "combine": 1.5},
     "graph": {"composite": 3, "combine": 4, "reorder": 3, "measure": 3, "povm": 1, "apply1": 2, "applyc": 2,
               "kraus": 1, "trace_out": 1},
     "blocks": {"apply1": 4, "applyc": 3, "kraus": 2, "measure": 2, "povm": 1.5, "combine": 3, "reorder": 2,
@@ -130,6 +130,14 @@ class Gen:
     def mixed(self, d):
         r = self.rng
         x = r.random()
+        if d >= 2 and self.opts.get("near_pure") and r.random() < self.opts["near_pure"]:
+            # nearly pure: purity deficit ~ 2 eps, far above the default contraction tolerance (1e-6) but inside
+            # the tolerances a caller may pass to contract(tol=...)
+            U = ref.haar_unitary(r, d)
+            eps = float(10 ** r.uniform(-4, -2.7))
+            ev = np.zeros(d)
+            ev[0], ev[1] = 1 - eps, eps
+            return (U * ev) @ U.conj().T
         if x < 0.2 and d >= 2:
             # degenerate spectrum, rank 2
             U = ref.haar_unitary(r, d)
@@ -306,6 +314,15 @@ class Gen:
                          ["s_mult", {"np": c2j(np.eye(d))}, {"num": 0.5}]],
                 "context": {"K": {"f": "const", "m": c2j(np.eye(d) * 1.5), "held": True}},
             }
+        if x < 0.9:
+            # expression written through dims[0] (number / ladder operators of the target's own size): the same
+            # operation object fits custom states of any dimension
+            return {
+                "fam": "custom", "type": "Expresion", "adaptive": True,
+                "expr": ["m_mult", ["expm", ["s_mult", {"num": [0.0, float(r.uniform(0.2, 2.5))]}, "n"]],
+                         ["expm", ["s_mult", {"num": [0.0, float(r.uniform(0.2, 1.2))]}, ["add", "a", "ad"]]]],
+                "context": {"n": {"f": "number", "i": 0}, "a": {"f": "destroy", "i": 0}, "ad": {"f": "create", "i": 0}},
+            }
         # expression: exp(i (A + A^dag)) with non-commuting pieces
         A = r.standard_normal((d, d)) + 1j * r.standard_normal((d, d))
         Hm = (A + A.conj().T) / 2
@@ -394,6 +411,11 @@ class Gen:
         else:
             k = int(r.integers(2, min(3, len(ns)) + 1))
             tg = [str(x) for x in r.choice(ns, size=k, replace=False)]
+            same = [grp for grp in ([n for n in ns if w.kind(n) == "F"], [n for n in ns if w.kind(n) == "P"]) if len(grp) >= 3]
+            if same and self.p(self.opts.get("same_kind_operands", 0.1)):
+                # three operands of one kind (e.g. three modes, some of them possibly holding equal states)
+                tg = [str(x) for x in r.choice(self.ch(same), size=3, replace=False)]
+                k = 3
             kinds = [w.kind(n) for n in tg]
             spec["state_types"] = kinds
             ctx = {}
@@ -415,7 +437,10 @@ class Gen:
                     terms.append(["kron"] + [f"g{m}" if m in (i, j) else f"i{m}" for m in range(k)])
             terms.append(["kron"] + [f"g{m}" if m == 0 else f"i{m}" for m in range(k)])
             G = ["add"] + terms if len(terms) > 1 else terms[0]
-            spec["expr"] = ["expm", ["s_mult", {"num": [0.0, float(r.uniform(0.2, 1.5))]}, G]]
+            # (half of the time a round coefficient: the expression text then coincides with that of other operations
+            # of the same shape whose context binds different matrices)
+            coef = float(self.ch([0.5, 1.0])) if self.p(0.5) else float(r.uniform(0.2, 1.5))
+            spec["expr"] = ["expm", ["s_mult", {"num": [0.0, coef]}, G]]
             spec["context"] = ctx
         via = {"via": "ce", "ce": self.ch(v["handles"][g][:3])}
         st = {"k": "apply", "op": spec, "targets": tg}
@@ -656,6 +681,9 @@ class Gen:
         st.update(via)
         if kind == "contract" and via["via"] == "state" and self.p(0.3):
             st["final"] = self.ch(["Label", "Vector"])
+        if kind == "contract" and via["via"] in ("state", "env") and self.opts.get("near_pure") and self.p(0.4):
+            # caller-chosen purity tolerance
+            st["tol"] = float(self.ch([1e-2, 1e-3, 1e-4, 1e-9]))
         return st
 
     def step_trace_out(self, v):
@@ -725,6 +753,9 @@ class Gen:
                     and o["state_types"] == sp["state_types"]]
         elif sp["fam"] == "comp" and sp["type"] != "Expression":
             fits = [(j, o) for j, o in enumerate(seen) if o["fam"] == "comp" and o["type"] == sp["type"]]
+        elif sp["fam"] == "custom":
+            # dimension-adaptive expressions fit custom states of any size
+            fits = [(j, o) for j, o in enumerate(seen) if o["fam"] == "custom" and o.get("adaptive")]
         else:
             fits = []
         if fits and self.rng.random() < self.opts.get("op_reuse", 0.25) * 2:
@@ -768,6 +799,15 @@ class Gen:
                {"k": "combine", "via": "env", "env": e, "targets": []}]
         if self.p(0.5):
             pre.append({"k": "expand", "via": "env", "env": e, "targets": []})
+        if self.p(0.5):
+            # an operation on the combined envelope (with automatic contraction on, its matrix path contracts the
+            # envelope again before it joins the composite product space)
+            t = e + (".f" if self.p(0.5) else ".p")
+            op = {"fam": "fock", "type": "PhaseShift", "phi": self.angle()} if t.endswith(".f") else self.pol_op()
+            st = {"k": "apply", "op": op, "targets": [t], "via": str(self.ch(["env", "state"]))}
+            if st["via"] == "env":
+                st["env"] = e
+            pre.append(st)
         member = e + (".f" if self.p(0.5) else ".p")
         pre.append({"k": "combine", "via": "ce", "ce": "CE0", "targets": [member, o]})
         pre.append({"k": "measure", "via": str(self.ch(["ce", "state"])), "ce": "CE0", "targets": [member], "destr": False})
@@ -777,11 +817,52 @@ class Gen:
         self.sticky_focus = 4
         return pre
 
+    def same_kind_prefix(self, v):
+        """scripted prefix: a three-operand expression operation over three subsystems of one kind (three modes or
+        three polarizations) of which one already shares a product space with a bystander while the other two are
+        still stored on their own"""
+        w = v["w"]
+        if len(w.envs) < 3:
+            return []
+        envs = [str(e) for e in w.envs]
+        self.rng.shuffle(envs)
+        suf = ".f" if self.p(0.7) else ".p"
+        tg = [e + suf for e in envs[:3]]
+        mate_pool = [n for n in w.subs if n not in tg]
+        if not mate_pool:
+            return []
+        mate = str(self.ch(mate_pool))
+        units = list(w.envs) + [n for n in w.subs if w.kind(n) == "X"]
+        if w.env_of(mate) is None and w.kind(mate) != "X":
+            return []
+        kd = "F" if suf == ".f" else "P"
+        g = {"f": "number", "i": 0}
+        ctx = {}
+        for i in range(3):
+            if kd == "F":
+                ctx[f"g{i}"] = {"f": "number", "i": i}
+                ctx[f"i{i}"] = {"f": "eye", "i": i}
+            else:
+                ctx[f"g{i}"] = {"f": "const", "m": c2j(np.diag([0.0, 1.0]))}
+                ctx[f"i{i}"] = {"f": "const", "m": c2j(np.eye(2))}
+        G = ["add", ["kron", "g0", "g1", "i2"], ["kron", "i0", "g1", "g2"], ["kron", "g0", "i1", "i2"]]
+        spec = {"fam": "comp", "type": "Expression", "state_types": [kd] * 3,
+                "expr": ["expm", ["s_mult", {"num": [0.0, float(self.rng.uniform(0.3, 1.4))]}, G]], "context": ctx}
+        order = [tg[i] for i in self.rng.permutation(3)]
+        pre = [{"k": "composite", "name": "CE0", "args": [str(u) for u in units]},
+               {"k": "combine", "via": "ce", "ce": "CE0", "targets": [tg[0], mate] if self.p(0.5) else [mate, tg[0]]},
+               {"k": "apply", "op": spec, "targets": order, "via": "ce", "ce": "CE0"}]
+        self.focus = set(tg)
+        self.sticky_focus = 3
+        return pre
+
     def next_step(self, runner):
         v = self.view(runner)
         if v["joint"] > self.maxdim:
             return None
-        if not runner.records and self.opts.get("multi_ce") and self.p(self.opts["multi_ce"]):
+        if not runner.records and self.opts.get("same_kind_prefix") and self.p(self.opts["same_kind_prefix"]):
+            self.prefix = self.same_kind_prefix(v)
+        elif not runner.records and self.opts.get("multi_ce") and self.p(self.opts["multi_ce"]):
             self.prefix = self.multi_ce_prefix(v)
             if self.p(0.4):
                 self.chain_at = int(self.rng.integers(len(self.prefix) + 2, len(self.prefix) + 6))
